@@ -405,7 +405,8 @@ def run(ctx: Context) -> None:
                   csvs[0] if csvs else ep.node, construct=f"dataframe = {norm_text(ctx.flow(ep).resolve(ed[0].args[1])) if ed else '?'}")
         ex = ctx.func(f"{CMDS}.export_geometry.Command.handle")
         flow = ctx.flow(ex)
-        wcalls = [c for c in calls_in(ex) if isinstance(c.func, ast.Name) and c.func.id == 'writer']
+        wcalls = [c for c in calls_in(ex) if isinstance(c.func, ast.Name) and isinstance(flow.resolve(c.func), ast.Subscript)
+                  and norm_text(flow.resolve(c.func).value) == 'format_writers']
         ok = False
         if len(wcalls) == 1:
             c = wcalls[0]
@@ -416,10 +417,12 @@ def run(ctx: Context) -> None:
                 and any('guess_format' in repr(a) for a in fmt_alts)
             ok = (ok_w and ok_fmt and len(c.args) == 2 and flow.reaches(c.args[0], lambda n: isinstance(n, ast.Call)
                                                                        and (callee(ctx, ex, n) or '').endswith('open_dataset'))
-                  and 'output_path' in norm_text(flow.resolve(c.args[1])))
+                  and norm_text(flow.resolve(c.args[1])) == 'options.output_path')
         ctx.check('R20.5', ok, "export-geometry: format_writers[<requested or guessed format>](dataset, output_path)", ex, wcalls[0] if wcalls else ex.node)
-        auto = [n for n in walk_no_nested(ex.node) if isinstance(n, ast.If) and norm_text(n.test) == "output_format == 'auto'"]
-        ok = len(auto) == 1 and any('self.guess_format(output_path)' in norm_text(s) for s in auto[0].body)
+        from .common import facts as _facts20
+        auto = [c for c in calls_in(ex) if isinstance(c.func, ast.Attribute) and c.func.attr == 'guess_format' and norm_text(c.func.value) == 'self']
+        ok = len(auto) == 1 and len(auto[0].args) == 1 and norm_text(flow.resolve(auto[0].args[0])) == 'options.output_path' \
+            and ("options.format == 'auto'", True) in _facts20(ctx, ex, auto[0])
         ctx.check('R20.5', ok, "export-geometry: the format is guessed from the output path only when 'auto' was requested", ex, auto[0] if auto else ex.node)
         ok = any(isinstance(t, ast.Try) and any(norm_text(h.type) == 'KeyError' and any(isinstance(s, ast.Raise) and 'CommandException' in norm_text(s) for s in h.body)
                                                  for h in t.handlers if h.type is not None) for t in walk_no_nested(ex.node))
